@@ -466,6 +466,11 @@ func (i *interpreter) mapOrder(m *omap) []int {
 	if !i.exploreMO || n < 2 {
 		return base
 	}
+	// only the iteration order of rule-entity maps is explored: it is the one
+	// gengine's behaviour depends on (tie-breaks of the stable sort, merge order)
+	if m.elemT == nil || !strings.Contains(m.elemT.String(), "RuleEntity") {
+		return base
+	}
 	var cands [][]int
 	if n <= 3 {
 		cands = permutations(n)
